@@ -19,6 +19,7 @@ import TdVerif.Lemmas.C02Coord
 import TdVerif.Lemmas.C02Meta
 import TdVerif.Lemmas.C02Tree
 import TdVerif.Lemmas.C02Expand
+import TdVerif.Lemmas.C02Cat
 
 namespace TdVerif.Props.C02
 open TdVerif.C02
@@ -959,6 +960,182 @@ theorem stack_unbind [Inhabited α] (ts : List (T α)) (s : Shape) (d i : Nat) (
     simp [List.getD_eq_getElem?_getD, List.getElem?_insertIdx_self, hd]
 
 
+/-! ## cat / split round trip, cat on leaves, batch size of stack / cat of tensordicts -/
+
+/-- `torch.cat(torch.split_with_sizes(t, sizes, d), d) == t`: the pieces of a split put back in order give the tensor back, every element -/
+theorem cat_split [Inhabited α] (t : T α) (sizes : List Nat) (d : Nat) (hd : d < t.rank)
+    (hsum : sizes.sum = t.shape.getD d 0) (hne : sizes ≠ []) :
+    T.cat (t.splitWithSizes sizes d) d ≈ₜ t := by
+  unfold T.rank at hd
+  have hsz := split_piece_sizes t sizes d hd
+  obtain ⟨n0, ns, rfl⟩ := List.exists_cons_of_ne_nil hne
+  have hshape : (T.cat (t.splitWithSizes (n0 :: ns) d) d).shape = t.shape := by
+    simp only [T.cat, hsz]
+    simp only [T.splitWithSizes, offsets, List.zip_cons_cons, List.map_cons, List.head?_cons, Option.map_some, Option.getD_some,
+      T.narrow, List.set_set, hsum]
+    apply List.ext_getElem?; intro k
+    simp only [List.getElem?_set]
+    by_cases hk : d = k
+    · subst hk; simp [hd, List.getD_eq_getElem?_getD, List.getElem?_eq_getElem hd]
+    · simp [hk]
+  refine ⟨hshape, ?_⟩
+  intro c hc
+  rw [hshape] at hc
+  have hcl : c.length = t.shape.length := InB.length_eq hc
+  have hx : c.getD d 0 < (n0 :: ns).sum := by
+    rw [hsum]; exact InB.getD_lt hc d hd
+  obtain ⟨n, off, h1, h2, h3, h4⟩ := locate_spec (n0 :: ns) 0 (c.getD d 0) hx
+  simp only [T.cat, hsz]
+  generalize hloc : T.locate (n0 :: ns) (c.getD d 0) = io at h1 h2 h3 h4
+  obtain ⟨i, o⟩ := io
+  simp only at h1 h2 h3 h4 ⊢
+  have hp : (t.splitWithSizes (n0 :: ns) d)[i]? = some (t.narrow d off n) := by
+    unfold T.splitWithSizes
+    rw [List.getElem?_map, getElem?_zip', h3, h1]; rfl
+  rw [hp]
+  simp only [Option.map_some, Option.getD_some, T.narrow]
+  congr 1
+  apply List.ext_getElem?; intro k
+  simp only [List.getElem?_modify, List.getElem?_set]
+  by_cases hk : d = k
+  · subst hk
+    have hdc : d < c.length := by omega
+    simp only [if_true, hdc, Option.map_some]
+    rw [List.getElem?_eq_getElem hdc]
+    have : c.getD d 0 = c[d] := by simp [List.getD_eq_getElem?_getD, List.getElem?_eq_getElem hdc]
+    rw [this] at h4; simp; omega
+  · simp [hk]
+
+/-- torch.cat on leaves commutes with the batch view: concatenating the leaves along a batch dim is concatenating their batch views
+(operands agree outside `dim`, `dim < n ≤ rank`) -/
+theorem cat_leaf_commutes [Inhabited α] (ts : List (T α)) (s : Shape) (n dim : Nat)
+    (hs : ∀ t ∈ ts, t.shape.set dim 0 = s.set dim 0) (hne : ts ≠ []) (hn : n ≤ s.length) (hd : dim < n) :
+    asBatch n (T.cat ts dim) ≈ₜₜ T.cat (ts.map (asBatch n)) dim := by
+  obtain ⟨t0, rest, rfl⟩ := List.exists_cons_of_ne_nil hne
+  have hlen : ∀ t ∈ t0 :: rest, t.shape.length = s.length := by
+    intro t ht; have := congrArg List.length (hs t ht); simpa using this
+  have hdrop : ∀ t ∈ t0 :: rest, t.shape.drop n = s.drop n := by
+    intro t ht
+    have := congrArg (List.drop n) (hs t ht)
+    rwa [List.drop_set_of_lt hd, List.drop_set_of_lt hd] at this
+  have hsizes : ((t0 :: rest).map (asBatch n)).map (fun p => p.shape.getD dim 0) = (t0 :: rest).map (fun t => t.shape.getD dim 0) := by
+    rw [List.map_map]
+    apply List.map_congr_left
+    intro t ht
+    simp only [Function.comp, asBatch, List.getD_eq_getElem?_getD, List.getElem?_take, hd, if_true]
+  generalize hS : ((t0 :: rest).map (fun t => t.shape.getD dim 0)) = sizes at hsizes
+  have hL : (T.cat (t0 :: rest) dim).shape = t0.shape.set dim sizes.sum := by
+    simp only [T.cat, hS]; simp
+  have hR : (T.cat ((t0 :: rest).map (asBatch n)) dim).shape = (t0.shape.take n).set dim sizes.sum := by
+    simp only [T.cat, hsizes]; simp [asBatch]
+  have hl0 := hlen t0 (by simp)
+  apply asBatch_eqv2
+  · rw [hL, hR, List.take_set]
+  · intro c hc
+    rw [hL, List.take_set] at hc
+    have hcl : c.length = n := by
+      have := InB.length_eq hc; simp at this; omega
+    have hx : c.getD dim 0 < sizes.sum := by
+      have := InB.getD_lt hc dim (by simp; omega)
+      have hm : dim < min n t0.shape.length := by omega
+      simpa [List.getD_eq_getElem?_getD, List.getElem?_set, List.getElem?_take, hd, hm] using this
+    obtain ⟨m, off, h1, h2, h3, h4⟩ := locate_spec sizes 0 (c.getD dim 0) hx
+    generalize hloc : T.locate sizes (c.getD dim 0) = io at h1 h2 h3 h4
+    obtain ⟨i, o⟩ := io
+    simp only at h1 h2 h3 h4
+    have hi : i < (t0 :: rest).length := by
+      have : i < sizes.length := by
+        by_cases h : i < sizes.length
+        · exact h
+        · rw [List.getElem?_eq_none (Nat.le_of_not_lt h)] at h1; cases h1
+      rw [← hS] at this; simpa using this
+    obtain ⟨ti, hti⟩ : ∃ ti, (t0 :: rest)[i]? = some ti := ⟨_, List.getElem?_eq_getElem hi⟩
+    have hmem : ti ∈ t0 :: rest := List.mem_of_getElem? hti
+    have hRget : (T.cat ((t0 :: rest).map (asBatch n)) dim).get c = (asBatch n ti).get (c.set dim o) := by
+      simp only [T.cat, hsizes, hloc]
+      rw [List.getElem?_map, hti]; rfl
+    refine ⟨?_, ?_⟩
+    · rw [hL, hRget, List.drop_set_of_lt hd]
+      simp only [asBatch]
+      rw [hdrop ti hmem, hdrop t0 (by simp)]
+    · intro f _
+      rw [hRget]
+      simp only [T.cat, asBatch, hS]
+      have e1 : (c ++ f).getD dim 0 = c.getD dim 0 := by
+        simp [List.getD_eq_getElem?_getD, List.getElem?_append_left (show dim < c.length by omega)]
+      rw [e1, hloc]
+      simp only [hti, Option.map_some, Option.getD_some]
+      congr 1
+      rw [List.set_append]
+      simp [show dim < c.length by omega]
+
+/-- `torch.cat` of tensordicts: when the call is accepted, the dim is a valid (possibly negative) batch dim of the first operand and the
+result's batch size is the shape `torch.cat` gives the operands' batch-shape proxies along it; the names are the first operand's -/
+theorem cat_batch_eq_torch [Inhabited α] (d : Int) (bs : Shape) (names : Names) (first : List (String × TD α))
+    (others : List (Shape × List (String × TD α))) (r : TD α)
+    (h : catLevel d bs names first others = .ok r) :
+    ∃ i es', normDim bs.length d = some i ∧
+      r = .node (T.cat (proxy bs :: others.map (fun o => proxy o.1)) i).shape names es' := by
+  unfold catLevel at h
+  simp only [] at h
+  generalize hdim : (if d < 0 then (bs.length : Int) + d else d) = dim at h
+  by_cases h1 : dim < 0 ∨ dim ≥ bs.length
+  · rw [if_pos h1] at h; cases h
+  rw [if_neg h1] at h
+  by_cases h2 : others.any (fun o => o.1.length ≤ dim.toNat) = true
+  · rw [if_pos h2] at h; cases h
+  rw [if_neg h2] at h
+  by_cases h3 : ¬ sameKeySets first (others.map (·.2)) = true
+  · rw [if_pos h3] at h; cases h
+  rw [if_neg h3] at h
+  split at h
+  · cases h
+  · rename_i es' _
+    simp only [Except.ok.injEq] at h
+    refine ⟨dim.toNat, es', ?_, ?_⟩
+    · unfold normDim; grind
+    · rw [← h]
+      simp [T.cat, proxy, List.map_map, Function.comp_def]
+
+/-- `torch.stack` of tensordicts: when the call is accepted, every operand has the first one's batch size and the result's batch size is
+the shape `torch.stack` gives the batch-shape proxies (`Torch.stackShape`: the batch size with the number of operands inserted at `dim`);
+a named first operand gets `None` for the new dim -/
+theorem stack_batch_eq_torch [Inhabited α] (d : Int) (bs : Shape) (names : Names) (es : List (String × TD α))
+    (rest : List (TD α)) (r : TD α) (h : tdStack d (.node bs names es :: rest) = .ok r) :
+    ∃ i nm' es', normDim (bs.length + 1) d = some i ∧ r = .node (T.stack (proxy bs :: rest.map (fun _ => proxy bs)) i).shape nm' es' ∧
+      Torch.stackShape (rest.length + 1) d bs = some (T.stack (proxy bs :: rest.map (fun _ => proxy bs)) i).shape ∧
+      (∀ l, names = some l → nm' = normNames (some (l.insertIdx i none))) := by
+  unfold tdStack at h
+  simp only [] at h
+  generalize hdim : (if d < 0 then (bs.length : Int) + d + 1 else d) = dim at h
+  by_cases h1 : dim < 0 ∨ dim > bs.length
+  · rw [if_pos h1] at h; cases h
+  rw [if_neg h1] at h
+  split at h
+  · cases h
+  · rename_i os hos
+    have hlen : os.length = rest.length := by
+      exact length_mapM_option _ _ _ hos
+    unfold stackLevel at h
+    by_cases h2 : dim.toNat > bs.length
+    · rw [if_pos h2] at h; cases h
+    rw [if_neg h2] at h
+    by_cases h3 : os.any (fun o => o.1 ≠ bs) = true
+    · rw [if_pos h3] at h; cases h
+    rw [if_neg h3] at h
+    by_cases h4 : ¬ sameKeySets es (os.map (·.2)) = true
+    · rw [if_pos h4] at h; cases h
+    rw [if_neg h4] at h
+    split at h
+    · cases h
+    · rename_i es' _
+      simp only [Except.ok.injEq] at h
+      have hn : normDim (bs.length + 1) d = some dim.toNat := by unfold normDim; grind
+      refine ⟨dim.toNat, normNames (names.map (fun l => l.insertIdx dim.toNat none)), es', hn, ?_, ?_, ?_⟩
+      · rw [← h]; simp [T.stack, proxy, hlen]
+      · simp [Torch.stackShape, hn, T.stack, proxy]
+      · intro l hl; subst hl; rfl
+
 /-! ## whole trees -/
 
 /-- on a leaf carrying `bs` as a prefix, a good call succeeds and the result carries the new batch size as a prefix -/
@@ -1178,5 +1355,9 @@ example : (splitPieces 3 7).toOption = some [(0, 3), (3, 3), (6, 1)] := by decid
 example : (splitListPieces [3, 3] 4).toOption = some [(0, 3), (3, 1)] := by decide   -- the oversize list the code still accepts
 example : resShape [2, 3] (flattenMeta 1 1 [2, 3] none) = none := by decide          -- documented stricter rejection
 example : resShape [] (transposeMeta 0 0 [] none) = none := by decide           -- 0-d batch: torch wraps dims, tensordict rejects
+-- cat ∘ split on a concrete tensor (with an empty piece): hypotheses of `cat_split` are met and the model computes
+example : T.cat ((arange [4, 2]).splitWithSizes [1, 0, 3] 0) 0 ≈ₜ arange [4, 2] :=
+  cat_split _ _ _ (by decide) (by decide) (by decide)
+example : ((T.cat ((arange [4, 2]).splitWithSizes [1, 0, 3] 0) 0).toList) = [0, 1, 2, 3, 4, 5, 6, 7] := by decide
 
 end TdVerif.Props.C02
